@@ -3,16 +3,18 @@ import glob, json, os
 from lib import vlib, deccheck
 
 
-def run_enc_traces(ctx, families, n, cmp_fields, want=("enc", "rt", "dec"), shards=None):
+def run_enc_traces(ctx, families, n, cmp_fields, want=("enc", "rt", "dec"), shards=None, sub=None):
     shards = shards or (8 if ctx.tier == "quick" else 32)
-    p, _ = ctx.run_harness(["drive-enc", "-out", ctx.tmp, "-shards", str(shards), "-n", str(n),
+    outdir = os.path.join(ctx.tmp, sub) if sub else ctx.tmp     # sub: keep apart from another driver's files
+    os.makedirs(outdir, exist_ok=True)
+    p, _ = ctx.run_harness(["drive-enc", "-out", outdir, "-shards", str(shards), "-n", str(n),
                             "-families", ",".join(families), "-cmp", ",".join(cmp_fields)], timeout=3000)
     summ = deccheck.summary_of(p)
     res = dict(summary=summ, diags={}, files={})
     for kind, module in (("enc", "TV_Encoder"), ("rt", "TV_RoundTrip"), ("dec", "TV_Decoder")):
         if kind not in want:
             continue
-        files = [f for f in sorted(glob.glob(os.path.join(ctx.tmp, kind + ".*.ndjson")))
+        files = [f for f in sorted(glob.glob(os.path.join(outdir, kind + ".*.ndjson")))
                  if os.path.getsize(f) > 0]
         res["files"][kind] = files
         if not files:
